@@ -355,6 +355,18 @@ def splice_fn(fid, text, sections, opts):
                 ins.append((stmt_end(text, kind, p, e), '\n' + body + '\n', 0))
             else:
                 raise TemplateError('bad call anchor ' + where)
+        elif k0 == 'stmt':
+            _, n, where, rx = key
+            occ = [m for m in re.finditer(rx, text[b:e]) if kind[b + m.start()] == 'c']
+            if n >= len(occ):
+                raise LostAnchor('%s: statement /%s/ #%d not found (%d)' % (fid, rx, n, len(occ)))
+            p = b + occ[n].start()
+            if where == 'before':
+                ins.append((stmt_start(text, kind, p, b), '\n' + body + '\n', 0))
+            elif where == 'after':
+                ins.append((stmt_end(text, kind, p, e), '\n' + body + '\n', 0))
+            else:
+                raise TemplateError('bad stmt anchor ' + where)
         else:
             raise TemplateError('bad section ' + str(key))
     out = text
@@ -460,6 +472,10 @@ def assemble(template_path, repo):
                     elif c2 == 'call':
                         cur = ('call', p2[1], int(p2[2]), p2[3])
                         sections.setdefault(cur, '')
+                    elif c2 == 'stmt':
+                        # //@stmt <n> before|after <regex>
+                        cur = ('stmt', int(p2[1]), p2[2], s2.split(None, 3)[3])
+                        sections.setdefault(cur, '')
                     else:
                         raise TemplateError('unknown directive in fn: ' + s2)
                 else:
@@ -501,7 +517,7 @@ def assemble(template_path, repo):
     text = ''.join(out)
     if meta.get('nopub'):
         # single-crate unit: everything private (same line structure, so regions stay valid)
-        text = re.sub(r'\bpub(\([^)]*\))?\s+(open\s+|closed\s+)?', '', text)
+        text = re.sub(r'\bpub(\([^)]*\))?\s+(?!assume_specification)(open\s+|closed\s+)?', '', text)
         text = re.sub(r'\b(open|closed)\s+spec\s+fn', 'spec fn', text)
     return text, meta
 
